@@ -412,6 +412,21 @@ impl BuildConfig {
     }
 }
 
+/// Returns `true` if building `builder` produces a bundle (and therefore actions that the
+/// fee accounts for): something was added to it, or its bundle type requires a bundle.
+fn orchard_bundle_expected(builder: &orchard::builder::Builder) -> bool {
+    !builder.spends().is_empty()
+        || !builder.outputs().is_empty()
+        || !builder.changes().is_empty()
+        || matches!(
+            builder.bundle_type(),
+            orchard::builder::BundleType::Transactional {
+                bundle_required: true,
+                ..
+            }
+        )
+}
+
 fn orchard_action_count(
     builder: &orchard::builder::Builder,
     is_coinbase: bool,
@@ -850,20 +865,22 @@ impl<P, U> Builder<P, U> {
             .map_or_else(|| &[][..], |b| b.outputs())
     }
 
-    /// Returns `true` if any Orchard spend, output, or change output has been
-    /// added to this builder (i.e. the transaction will carry an Orchard bundle).
+    /// Returns `true` if the transaction will carry an Orchard bundle: any Orchard
+    /// spend, output, or change output has been added to this builder, or the builder's
+    /// padding requires a bundle to be produced even when it is otherwise empty.
     fn orchard_in_use(&self) -> bool {
-        self.orchard_builder.as_ref().is_some_and(|b| {
-            !b.spends().is_empty() || !b.outputs().is_empty() || !b.changes().is_empty()
-        })
+        self.orchard_builder
+            .as_ref()
+            .is_some_and(orchard_bundle_expected)
     }
 
-    /// Returns `true` if any Ironwood spend, output, or change output has been
-    /// added to this builder (i.e. the transaction will carry an Ironwood bundle).
+    /// Returns `true` if the transaction will carry an Ironwood bundle: any Ironwood
+    /// spend, output, or change output has been added to this builder, or the builder's
+    /// padding requires a bundle to be produced even when it is otherwise empty.
     fn ironwood_in_use(&self) -> bool {
-        self.ironwood_builder.as_ref().is_some_and(|b| {
-            !b.spends().is_empty() || !b.outputs().is_empty() || !b.changes().is_empty()
-        })
+        self.ironwood_builder
+            .as_ref()
+            .is_some_and(orchard_bundle_expected)
     }
 
     /// Checks that the given version supports all features required by the inputs and
@@ -2324,6 +2341,54 @@ mod tests {
                 orchard::note::NoteVersion::V2
             ))
         );
+    }
+
+    #[test]
+    #[cfg(feature = "circuits")]
+    fn required_bundle_is_checked_against_the_proposed_version() {
+        // A bundle that the padding policy requires counts as "in use": the fee accounts
+        // for its actions, so a version that cannot carry it must be rejected.
+        let required = BundlePadding {
+            bundle_required: true,
+            pad_to_minimum: None,
+        };
+        let mut builder = Builder::new(
+            nu6_3_test_network(),
+            BlockHeight::from_u32(10),
+            BuildConfig::Standard {
+                sapling_anchor: None,
+                orchard_anchor: None,
+                ironwood_anchor: Some(orchard::Anchor::empty_tree()),
+                orchard_padding: BundlePadding::DEFAULT,
+                ironwood_padding: required,
+            },
+        );
+        assert_matches!(
+            builder.propose_version::<Infallible>(TxVersion::V5),
+            Err(Error::TargetIncompatible(BranchId::Nu6_3, TxVersion::V5, None))
+        );
+        assert_matches!(builder.propose_version::<Infallible>(TxVersion::V6), Ok(()));
+
+        let mut builder = Builder::new(
+            nu6_3_test_network(),
+            BlockHeight::from_u32(6),
+            BuildConfig::Standard {
+                sapling_anchor: None,
+                orchard_anchor: Some(orchard::Anchor::empty_tree()),
+                ironwood_anchor: None,
+                orchard_padding: required,
+                ironwood_padding: BundlePadding::DEFAULT,
+            },
+        );
+        assert_matches!(
+            builder.propose_version::<Infallible>(TxVersion::V4),
+            Err(Error::TargetIncompatible(
+                BranchId::Nu5,
+                TxVersion::V4,
+                Some(zcash_protocol::PoolType::ORCHARD)
+            ))
+        );
+        assert_matches!(builder.propose_version::<Infallible>(TxVersion::V5), Ok(()));
     }
 
     #[test]
